@@ -153,6 +153,27 @@ def pair_header():
             lines.append("  %s = %s," % (name, exprgen.text(e)))
             items.append(("enum", name, e, v))
             k += 1
+    # every cast the evaluator knows applied to values on both sides of its range, used as a number; every unary operator
+    for cn in exprgen.CASTS:
+        for v in (0, 1, 12, -8, -1, 127, 128, 255, 256, 300, 32767, 32768, 65535, 65536, 70000, 2 ** 31 - 1, -2 ** 31):
+            for e in (("bin", "add", ("cast", cn, ("int", v)), ("int", 3)), ("bin", "shl", ("cast", cn, ("bin", "band", ("int", v), ("int", 12))), ("int", 2))):
+                val = ev(e)
+                if val is None:
+                    continue
+                name = "P%d_cast_%s" % (k, cn)
+                lines.append("  %s = %s," % (name, exprgen.text(e)))
+                items.append(("enum", name, e, val))
+                k += 1
+    for un in exprgen.UN:
+        for v in (0, 1, 5, -7, 255, 2 ** 31 - 1):
+            for e in (("un", un, ("int", v)), ("bin", "mul", ("un", un, ("int", v)), ("int", 2)), ("un", un, ("un", un, ("int", v)))):
+                val = ev(e)
+                if val is None:
+                    continue
+                name = "P%d_un_%s" % (k, un)
+                lines.append("  %s = %s," % (name, exprgen.text(e)))
+                items.append(("enum", name, e, val))
+                k += 1
     lines.append("};")
     lines.append("struct Arrays {\n__published:\n  int unused_bound[1];\n};")
     return "\n".join(lines) + "\n", items
